@@ -31,6 +31,13 @@ def cases(tier, seed):
                                                bstyle=bstyle, seed=int(rng.integers(1 << 31)))
 
 
+def snorm(x):
+    """Euclidean norm that does not under- or overflow (np.linalg.norm squares the entries)"""
+    x = np.asarray(x).ravel()
+    m = float(np.max(np.abs(x))) if x.size else 0.0
+    return 0.0 if m == 0 or not np.isfinite(m) else m * float(np.linalg.norm(x / m))
+
+
 def run_case(c):
     rng = np.random.default_rng(c['seed'])
     L, d = c['L'], c['d']
@@ -51,8 +58,12 @@ def run_case(c):
         dense = oracle.mpo_dense
         wf = oracle.wf_mpo
         phys = d * d
+    if c['seed'] % 5 == 0 and c['entries'] in ('complex', 'real') and L >= 2:
+        # the factorization is scale invariant: very large or very small tensors (norms beyond 1e154 / below 1e-154)
+        f = (1e90, 1e-80)[(c['seed'] // 5) % 2]
+        x.A[0] = x.A[0] * f; x.A[-1] = x.A[-1] * f
     v0 = dense(x.A)
-    n0 = float(np.linalg.norm(v0.ravel()))
+    n0 = snorm(v0)
     D0 = [len(q) for q in x.qD]
     qfirst, qlast = x.qD[0].copy(), x.qD[-1].copy()
     try:
@@ -60,7 +71,7 @@ def run_case(c):
     except Exception as e:
         fail('returns', f'orthonormalize raised {type(e).__name__}: {e}')
         return dict(failures=fails, nontrivial=True, key=json.dumps(c, sort_keys=True))
-    tol = 1e-9 * max(1.0, n0)
+    tol = 1e-9 * (max(1.0, n0) if 1e-30 < n0 < 1e30 or n0 == 0 else n0)
     if not (np.isreal(nrm) and nrm >= 0):
         fail('nrm_nonneg', f'factor {nrm!r} is not a non-negative real')
     if abs(nrm - n0) > tol:
@@ -70,10 +81,10 @@ def run_case(c):
         fail('wf', '; '.join(bad))
         return dict(failures=fails, nontrivial=True, key=json.dumps(c, sort_keys=True))
     v1 = dense(x.A)
-    if not oracle.close(nrm * v1, v0, tol=1e-9):
-        fail('state_preserved', f'|nrm*new - old| = {np.linalg.norm((nrm*v1 - v0).ravel())}, norm {n0}')
-    if n0 > 1e-12 and abs(np.linalg.norm(v1.ravel()) - 1) > 1e-9:
-        fail('unit_norm', f'norm after = {np.linalg.norm(v1.ravel())}')
+    if not snorm(nrm * v1 - v0) <= 1e-9 * (max(1.0, n0) if 1e-30 < n0 < 1e30 or n0 == 0 else n0):
+        fail('state_preserved', f'|nrm*new - old| = {snorm(nrm * v1 - v0)}, norm {n0}')
+    if (n0 > 1e-12 or (n0 > 0 and c['seed'] % 5 == 0)) and abs(snorm(v1) - 1) > 1e-9:
+        fail('unit_norm', f'norm after = {snorm(v1)}')
     # isometries
     for i, A in enumerate(x.A):
         if c['kind'] == 'mps':
@@ -96,5 +107,24 @@ def run_case(c):
     if n0 > 1e-12:
         if not (np.array_equal(x.qD[0], qfirst) and np.array_equal(x.qD[-1], qlast)):
             fail('boundary_charges', f'boundary charges changed: {qfirst}->{x.qD[0]}, {qlast}->{x.qD[-1]}')
+    # history: a site tensor of the (now canonical) object is rescaled in place, then the same call is made again
+    if not fails and 1e-12 < n0 < 1e30 and c['entries'] in ('complex', 'real', 'mixed'):
+        fac = (2.5, 1 + 3e-7, -1.0, 1e-3, 1 - 2e-7)[c['seed'] % 5]
+        site = int(rng.integers(L))
+        x.A[site] *= fac
+        v2 = dense(x.A)
+        n2 = snorm(v2)
+        try:
+            nrm2 = x.orthonormalize(mode=c['mode'])
+        except Exception as e:
+            fail('returns', f'second orthonormalize (after rescaling site {site} by {fac}) raised {type(e).__name__}: {e}')
+            return dict(failures=fails, nontrivial=True, key=json.dumps(c, sort_keys=True))
+        if not abs(nrm2 - n2) <= 1e-10 * max(1.0, n2):
+            fail('nrm_is_norm', f'second call after rescaling site {site} in place by {fac}: factor {nrm2!r}, norm of the object {n2!r}')
+        v3 = dense(x.A)
+        if not oracle.close(nrm2 * v3, v2, tol=1e-9):
+            fail('state_preserved', f'second call after rescaling site {site} by {fac}: |nrm*new - old| = {np.linalg.norm((nrm2 * v3 - v2).ravel())}')
+        if abs(np.linalg.norm(v3.ravel()) - 1) > 1e-10:
+            fail('unit_norm', f'second call after rescaling site {site} by {fac}: norm after = {np.linalg.norm(v3.ravel())!r}')
     trivial = c['qstyle'] == 'zero' and all(D == 1 for D in Ds)
     return dict(failures=fails, nontrivial=not trivial, key=json.dumps(c, sort_keys=True))
